@@ -209,7 +209,7 @@ def exInst : Val :=
 theorem exInst_conforms : Conforms exMM exInst :=
   ⟨[72], _, rfl, by
     simp [conformsNN, conforms, conformsFields, conformsAll, exInst, exMM, exLeaf, exShape, exCircle, exHolder,
-      leaf, circle, MM.findClass, textOk]⟩
+      leaf, circle, MM.findClass]⟩
 example : children exInst = [circle (leaf 1), circle .none, leaf 2] := rfl
 example : below exInst = [circle (leaf 1), leaf 1, circle .none, leaf 2] := rfl
 example : descendOnce exMM exInst = .ok [circle (leaf 1), circle .none, leaf 2] :=
